@@ -550,6 +550,83 @@ def Noise.sentBy : Noise → Exch → Bool
 /-- a non-market message: nothing is looked up, nothing is emitted -/
 def transformNoise (_p : Pair) (_m : IMap) (_n : Noise) : Out := .events []
 
+/-! ## The un-keyed representation: `Subscription<_, MarketDataInstrument, _>`
+
+The FIRST `Identifier<Market>` impl of every connector (binance/market.rs:17-23, bitfinex/market.rs:16-20,
+bitmex/market.rs:18-22, bybit/market.rs:18-24, coinbase/market.rs:16-20, gateio/market.rs:24-30,
+kraken/market.rs:16-20, okx/market.rs:24-28): the instrument type of the README's
+`DynamicStreams::init` / `Streams::builder` examples. The market is formatted from base / quote / kind
+exactly as for `Keyed<_, MarketDataInstrument>` (`market`); what differs is the instrument KEY:
+`impl InstrumentData for MarketDataInstrument { type Key = Self; fn key(&self) -> &Self { self } }`
+(barter-data/src/instrument.rs:41-51), so the instrument map is a `Map<MarketDataInstrument>` and every
+event carries the subscribed instrument itself. -/
+
+/-- The `MarketDataInstrument` value a subscription stores: `MarketDataInstrument::new`
+(barter-instrument/src/instrument/market_data/mod.rs:42-51) converts base and quote into
+`AssetNameInternal`, which lower-cases them (asset/name.rs:10-20). -/
+def Inst.canon (i : Inst) : Inst := ⟨lower i.base, lower i.quote, i.kind⟩
+
+/-- `Map<MarketDataInstrument>`: association list with unique ids, instruments as values. -/
+abbrev UMap := List (Str × Inst)
+
+/-- `HashMap::insert`. -/
+def UMap.insert (m : UMap) (id : Str) (key : Inst) : UMap :=
+  match m with
+  | [] => [(id, key)]
+  | (i, k) :: rest => if i = id then (id, key) :: rest else (i, k) :: UMap.insert rest id key
+
+/-- `Map::find` (`subscription/mod.rs:304-312`). -/
+def UMap.find (m : UMap) (id : Str) : Option Inst :=
+  match m with
+  | [] => none
+  | (i, k) :: rest => if i = id then some k else UMap.find rest id
+
+/-- `HashMap::remove`. -/
+def UMap.remove (m : UMap) (id : Str) : UMap := m.filter (fun e => e.1 ≠ id)
+
+/-- `WebSocketSubMapper::map` (`subscriber/mapper.rs:33-75`) over
+`Subscription<_, MarketDataInstrument, _>`: every subscription is inserted under its subscription id
+with `subscription.instrument.key().clone()` = the stored instrument. -/
+def mapFromU (p : Pair) (m : UMap) : List Inst → UMap
+  | [] => m
+  | i :: rest => mapFromU p (m.insert (subscriptionId p i.canon) i.canon) rest
+
+def mapOfU (p : Pair) (subs : List Inst) : UMap := mapFromU p [] subs
+
+/-- The `Subscribed` arm of the Bitfinex validator (`bitfinex/validator.rs:93-110`; generic in the
+instrument key) on a `Map<MarketDataInstrument>`. -/
+def bitfinexSubscribedU (m : UMap) (chan mkt : Str) (chanId : Nat) : UMap :=
+  match m.find (subId chan mkt) with
+  | some key => (m.remove (subId chan mkt)).insert (Nat.toDigits 10 chanId) key
+  | none => m
+
+/-- `MarketEvent<MarketDataInstrument, _>`. -/
+structure EventU where
+  key : Inst
+  exch : Exch
+  time : Int
+  kind : EvKind
+  deriving Repr, Inhabited
+
+/-- the same event under another instrument key -/
+def Event.withKey (ev : Event) (i : Inst) : EventU := ⟨i, ev.exch, ev.time, ev.kind⟩
+
+inductive OutU
+  | events (evs : List EventU)
+  | unidentifiable (id : Str)
+  deriving Repr, Inhabited
+
+/-- `Transformer::transform` of the pair's transformer at `InstrumentKey = MarketDataInstrument`
+(the transformers are generic in the key and only `clone` it into the events:
+`transformer/stateless.rs:72-92`, `binance/spot/l2.rs:132-157`). -/
+def transformU (p : Pair) (m : UMap) (msg : Msg) : OutU :=
+  match payloadId p msg with
+  | none => .events []
+  | some id =>
+    match m.find id with
+    | some key => .events ((events p 0 msg).map (·.withKey key))
+    | none => .unidentifiable id
+
 /-! ## Abstract venue specification (from the property text, not from the code)
 
 What the venues call their markets and channels, restricted to what the repository's own
